@@ -18,10 +18,11 @@ Also modelled (Go standard library, not part of /repo): `encoding/binary` `Appen
 Conventions: Go `int`/`int64` are `Int` (64-bit platform; the range predicate `I64` is explicit where it
 matters), bytes are `List UInt8`, a Go map is an association list read with `List.lookup` and written by
 consing (a newer binding shadows an older one; nothing observable iterates these maps). A missing key
-reads as Go's zero value. `make([]int, l)` is the only unguarded allocation/index/slice in the modelled
-code: it is an explicit `panic` outcome when `l` exceeds the allocation bound `A` (a parameter: what the
-runtime can allocate; `makeslice: len out of range` is certain above 2^45 on every 64-bit platform and an
-unrecoverable out-of-memory abort is what happens long before). Core Lean only. -/
+reads as Go's zero value. Every allocation/index/slice in the modelled code is guarded: since /repo a468db8
+`DecodeIndex` allocates `make([]int, 0, n)` with `0 ≤ n ≤ len(remaining input)` (before that commit it ran
+`make([]int, l)` on the count `l` read from the input and panicked or aborted on hostile counts). The `panic`
+constructor of `Out` remains: it is how the driver represents a panic observed on the implementation, and
+"never panics" stays a theorem about the model. Core Lean only. -/
 namespace Model.C36
 
 abbrev Bytes := List UInt8
@@ -109,7 +110,7 @@ def decodeID : Bytes → Out (Int × Bytes)
     else .ok ((a.toNat * 16777216 + b.toNat * 65536 + c.toNat * 256 + d.toNat : Nat), rest)
   | _ => .err .badHeader
 
-/-- The loop `for i := range index { idx, err := ReadVarint; if err != nil return err; index[i] = idx }`. -/
+/-- The loop `for i := int64(0); i < l; i++ { idx, err := ReadVarint; if err != nil return err; index = append(index, idx) }`. -/
 def readN : Nat → Bytes → Out (List Int × Bytes)
   | 0, b => .ok ([], b)
   | n + 1, b =>
@@ -121,15 +122,20 @@ def readN : Nat → Bytes → Out (List Int × Bytes)
       | .err e => .err e
       | .panic => .panic
 
-/-- `ConfluentHeader.DecodeIndex`. `A` = largest `l` for which `make([]int, l)` succeeds. -/
-def decodeIndex (A : Nat) (b : Bytes) (maxLength : Int) : Out (List Int × Bytes) :=
+/-- The capacity of `make([]int, 0, n)`: `n := l; if n > int64(len(r.b)) { n = int64(len(r.b)) }`.
+`0 ≤ n ≤ len(r.b)`, the length of a slice that exists, so the `make` cannot panic; `append` never does. -/
+def allocCap (l : Int) (r : Bytes) : Int := if l > (r.length : Int) then (r.length : Int) else l
+
+/-- `ConfluentHeader.DecodeIndex` (as of /repo a468db8). The capacity only sizes the allocation; the result is
+what the append loop collects. -/
+def decodeIndex (b : Bytes) (maxLength : Int) : Out (List Int × Bytes) :=
   match readVarint b with
   | .error e => .err e
   | .ok (l, r) =>
     if l = 0 then .ok ([0], r)
     else if l < 0 then .err .badHeader
     else if maxLength > 0 ∧ l > maxLength then .err .notRegistered
-    else if l.toNat > A then .panic            -- make([]int, l)
+    else if allocCap l r < 0 ∨ allocCap l r > (r.length : Int) then .panic   -- make([]int, 0, n) out of range: unreachable (theorem)
     else readN l.toNat r
 
 /-! ### Serde registry -/
@@ -221,14 +227,14 @@ def finish (t : Node) (b : Bytes) : Out (Data × Bytes) :=
 
 /-- `Serde.decodeFind` followed by the call of the found decoder (`Decode`/`DecodeNew`): the result names
 the registration whose decoder runs and the bytes it is given. -/
-def decodeFind (A : Nat) (s : Reg) (b : Bytes) : Out (Data × Bytes) :=
+def decodeFind (s : Reg) (b : Bytes) : Out (Data × Bytes) :=
   match decodeID b with
   | .err e => .err e
   | .panic => .panic
   | .ok (id, b1) =>
     let t := mget s.ids id
     if !t.sub.isEmpty then
-      match decodeIndex A b1 t.depth with
+      match decodeIndex b1 t.depth with
       | .err e => .err e
       | .panic => .panic
       | .ok (index, b2) =>
